@@ -90,6 +90,7 @@ type PatNode struct {
 //	match                bare pattern matched against the line (Pat)
 //	smatch               A =~ Pat (Neg: !~)
 //	get                  metric read M[Keys...]
+//	incv                 M[Keys...]++ (Neg: --) used as a value: the new value
 //	len tolower strtol   builtins (A, B)
 //	subst rsubst         subst(A, B, C) / subst(Pat, B, C)
 //	timestamp getfilename
@@ -163,6 +164,9 @@ type Program struct {
 	// Features counts the constructs used (for the input distribution).
 	Features map[string]int
 
+	// HasIncValue: the program uses x++ / x-- as a value (Expr op "incv"); the Coq
+	// AST has no such node yet: these programs are judged by the Go reference only.
+	HasIncValue bool
 	// ExtraLines are inputs that exercise the flagged construct (flagged streams only).
 	ExtraLines []string
 
@@ -289,6 +293,11 @@ func (e *Expr) src0() string {
 		return e.A.src(8) + op + e.Pat.P.Src()
 	case "get":
 		return e.M.Name + keysSrc(e.Keys)
+	case "incv":
+		if e.Neg {
+			return e.M.Name + keysSrc(e.Keys) + "--"
+		}
+		return e.M.Name + keysSrc(e.Keys) + "++"
 	case "len", "tolower":
 		return e.Op + "(" + e.A.src(1) + ")"
 	case "strtol":
